@@ -14,6 +14,7 @@ static Obj *current_fn;
 static void gen_expr(Node *node);
 static void gen_stmt(Node *node);
 
+#ifndef CHIBICC_VERIF
 __attribute__((format(printf, 1, 2)))
 static void println(char *fmt, ...) {
   va_list ap;
@@ -22,6 +23,7 @@ static void println(char *fmt, ...) {
   va_end(ap);
   fprintf(output_file, "\n");
 }
+#endif
 
 static int count(void) {
   static int i = 1;
